@@ -164,6 +164,43 @@ TIscan == /\ E.op = "iscan"
                    [undetected |-> IF okargs /\ got = want /\ Chk("M") THEN Undetected(pl, ple, pr, pre) ELSE {}])
              /\ lastRead' = IF okargs /\ got = want /\ Len(E.nv) >= 1 THEN [valid |-> TRUE, l |-> pl, le |-> ple, r |-> pr, re |-> pre] ELSE [lastRead EXCEPT !.valid = FALSE]
           /\ UNCHANGED <<node, root, nextId, abs, lastMem, sizes>>
+\* the caller pauses the cursor after some entries, writes into the tree (insert of a new key / remove of a present key), and resumes:
+\* with early_abort a structural modification of the border under the cursor must be reported as WARN_CONCURRENT_OPERATIONS by the next
+\* call; otherwise (and for other borders) the cursor continues with exactly the remaining entries of the updated map
+IsPrefix(a, b) == Len(a) <= Len(b) /\ SubSeq(b, 1, Len(a)) = a
+TIscanMod ==
+   /\ E.op = "iscanmod"
+   /\ LET asc == AbsRange(E.l, E.le, E.r, E.re)
+          full == IF E.rtl THEN Reverse(asc) ELSE asc
+          got1 == [i \in 1..Len(E.steps1) |-> <<E.steps1[i][1], E.steps1[i][2]>>]
+          got2 == [i \in 1..Len(E.steps2) |-> <<E.steps2[i][1], E.steps2[i][2]>>]
+          written == E.mid.op \in {"put", "rem"} /\ E.mid.st = "OK"
+          lastk == got1[Len(got1)][1]
+          pres == Present(E.mid.k)
+          structural == written /\ ((E.mid.op = "put" /\ ~pres) \/ (E.mid.op = "rem" /\ pres))
+          nabs == IF ~written THEN abs ELSE IF E.mid.op = "put" THEN AbsPut(E.mid.k, E.mid.v) ELSE IF pres THEN AbsRemove(E.mid.k) ELSE abs
+          asc2 == SelectSeq(nabs, LAMBDA p : InRange(p[1], E.l, E.le, E.r, E.re) /\ (IF E.rtl THEN LexLess(p[1], lastk) ELSE LexLess(lastk, p[1])))
+          rest == IF E.rtl THEN Reverse(asc2) ELSE asc2
+          b1 == GetRec(node, root, lastk).b
+          b2 == GetRec(node, root, E.mid.k).b
+          under == structural /\ b1 = b2 IN
+      /\ J("C10", "iscan-result", Len(got1) >= 1 /\ IsPrefix(got1, full), [exp |-> KeysOf(full), got |-> KeysOf(got1), rtl |-> E.rtl])
+      /\ J("C10", "iscan-early-abort-missed", (E.mid.op # "none" /\ E.ea /\ under) => (E.end = "WARN_CONCURRENT_OPERATIONS" /\ Len(got2) = 0),
+            [under |-> under, lastk |-> lastk, written |-> E.mid.k])
+      /\ J("C10", "iscan-resume-after-write", (E.mid.op # "none" /\ ~(E.ea /\ under)) =>
+               \* the written key itself may or may not be seen (it was not stable during the iteration); everything else must be exactly the rest
+               LET f2 == SelectSeq(got2, LAMBDA p : p[1] # E.mid.k) fr == SelectSeq(rest, LAMBDA p : p[1] # E.mid.k)
+                   mono == \A i \in 1..(Len(got2) - 1) : IF E.rtl THEN LexLess(got2[i + 1][1], got2[i][1]) ELSE LexLess(got2[i][1], got2[i + 1][1]) IN
+               /\ mono
+               /\ IF E.ea THEN IsPrefix(f2, fr) /\ (E.end = "OK_SCAN_END" => f2 = fr) /\ E.end \in {"OK_SCAN_END", "WARN_CONCURRENT_OPERATIONS"}
+                  ELSE f2 = fr /\ E.end = "OK_SCAN_END",
+            [exp |-> KeysOf(rest), got |-> KeysOf(got2), rtl |-> E.rtl, ea |-> E.ea, under |-> under])
+      /\ abs' = nabs
+      /\ IF structural \/ (written /\ E.mid.op = "put") THEN
+            (IF E.mid.op = "put" THEN LET r == PutRec(node, root, nextId, root, E.mid.k, E.mid.v) c == Canon(r[1], r[2]) IN Structure(c[1], c[2][r[2]], c[3])
+             ELSE LET r == RemoveRec(node, root, root, E.mid.k) c == Canon(r[1], r[2]) IN Structure(c[1], c[2][r[2]], c[3]))
+         ELSE Structure(node, root, nextId)
+   /\ lastRead' = [lastRead EXCEPT !.valid = FALSE] /\ UNCHANGED <<lastMem, sizes>>
 \* mem_usage against an independent walk of the dumped structure (C20)
 TMem == /\ E.op = "mem"
         /\ LET dn == DNodes(E.dump)
@@ -184,7 +221,7 @@ TFinal == /\ E.op = "final" /\ DumpOK(abs) /\ Structure(node, root, nextId) /\ a
 TInit == /\ node = (1 :> NewBorder(TRUE, NULL)) /\ root = 1 /\ nextId = 2 /\ abs = <<>> /\ l = 1
          /\ lastRead = [valid |-> FALSE, l |-> <<>>, le |-> "INF", r |-> <<>>, re |-> "INF"]
          /\ lastMem = [valid |-> FALSE, mu |-> <<>>, used |-> <<>>] /\ sizes = [b |-> 0, i |-> 0, lv |-> 0, p |-> 0]
-TNext == l <= Len(Log) /\ l' = l + 1 /\ (TMeta \/ TPut \/ TRem \/ TGet \/ TScan \/ TIscan \/ TMem \/ TFinal)
+TNext == l <= Len(Log) /\ l' = l + 1 /\ (TMeta \/ TPut \/ TRem \/ TGet \/ TScan \/ TIscan \/ TIscanMod \/ TMem \/ TFinal)
 TSpec == TInit /\ [][TNext]_tvars
 TView == l
 Accepted == TLCGet("stats").diameter - 1 = Len(Log)
